@@ -291,6 +291,10 @@ def _run(case, w):
             raise Violation('resource-memory-error', 'step %d frame %r'
                             % (step, fr))
         peak = tracemalloc.get_traced_memory()[1] - m0
+        if peak > 2 * 1024 * 1024 + 400 * flen:
+            raise Violation('resource-peak-memory',
+                            'step %d frame len %d: peak %d bytes'
+                            % (step, flen, peak))
         g1 = graphsize.size(sio)
         if decodable is False:
             labels['undecodable'] = True
